@@ -235,6 +235,7 @@ enc!(c07_gene_encode_n1_t1, 1, 1);
 enc!(c07_gene_encode_n3_t0, 3, 0);
 enc!(c07_gene_encode_n2_t2, 2, 2);
 enc!(c07_gene_encode_n3_t2, 3, 2);
+enc!(c07_gene_encode_n2_t0, 2, 0);
 
 /// over-long names: the emitted name field (255 bytes) must still be valid UTF-8, otherwise the
 /// loader rejects the serialiser's own output. Name = 253 x 'a' + one symbolic 1..3-byte character
